@@ -123,8 +123,8 @@ def rand_fx(rng, d, int_digits_pos, int_digits_neg=None, allow_wide=False):
     return (neg, rand_mag(rng, d, nd, allow_wide))
 
 
-SIZE_CLASSES_QUICK = [1, 2, 3, 9, 10, 11, 99, 100, 101, 999, 1000, 1001]
-SIZE_CLASSES_THOROUGH = [*SIZE_CLASSES_QUICK, 9999, 10000, 10001, 12000]
+SIZE_CLASSES_QUICK = [1, 2, 3, 9, 10, 11, 99, 100, 101, 999, 1000, 1001, 9999, 10000, 10001]
+SIZE_CLASSES_THOROUGH = [*SIZE_CLASSES_QUICK, 12000]
 
 
 def pick_natom(rng, i: int, thorough: bool, big=None) -> int:
